@@ -10,7 +10,7 @@ ids="$@"; [ -z "$ids" ] && ids=$(ls seeded)
 for s in $ids; do
   prop=$(python3 -c "import json;print(json.load(open('seeded/$s/meta.json'))['breaks_property'])")
   git -C $repo checkout -q -- . ; git -C $repo clean -fdq -- homescript cmd
-  if ! git -C $repo apply --3way seeded/$s/patch.diff 2>/dev/null && ! git -C $repo apply seeded/$s/patch.diff 2>/dev/null; then echo "$s $prop PATCH-DOES-NOT-APPLY"; git -C $repo checkout -q -- .; git -C $repo reset -q; continue; fi
+  if ! git -C $repo apply --3way $PWD/seeded/$s/patch.diff 2>/dev/null && ! git -C $repo apply $PWD/seeded/$s/patch.diff 2>/dev/null; then echo "$s $prop PATCH-DOES-NOT-APPLY"; git -C $repo checkout -q -- .; git -C $repo reset -q; continue; fi
   git -C $repo reset -q
   out=$(./check $prop --tier $tier 2>&1); rc=$?
   case $rc in 0) r=MISSED;; 1) r=DETECTED;; *) r="BROKEN rc=$rc";; esac
